@@ -1,0 +1,24 @@
+//go:build verif
+
+// Contracts for package client, read by /verif/govc (comment-only file).
+
+package client
+
+// ---- C27: topic-filter matching ----
+// Declarative MQTT 3.1.1 (4.7) matching of a filter F against a topic T, both
+// split into levels. Positions are absolute positions in F's backing array
+// (a Go slice is a window into a backing array); T's level for F's position p
+// is at p + (soff(T) - soff(F)). There is an end position e such that every
+// filter level before e is not '#' and is '+' or equal to the topic's level,
+// and either both sequences end at e, or the filter has '#' at e (which also
+// matches the parent level, i.e. the topic may end at e).
+//@ spec lvl(F []string, T []string, p int) bool = absat(F, p) != "#" &&
+//@      (absat(F, p) == "+" || absat(F, p) == absat(T, p + (soff(T) - soff(F))))
+//@ spec matchEnd(F []string, T []string, e int) bool = soff(F) <= e && e <= soff(F) + len(F) && e - soff(F) <= len(T) &&
+//@      (forall p int :: soff(F) <= p && p < e ==> lvl(F, T, p)) &&
+//@      ((e == soff(F) + len(F) && e - soff(F) == len(T)) || (e < soff(F) + len(F) && absat(F, e) == "#"))
+
+//@ func match
+//@   nopanic [C27]
+//@   ensures [C27] sound: result ==> (exists e int :: matchEnd(route, topic, e))
+//@   ensures [C27] complete: forall e int :: matchEnd(route, topic, e) ==> result
